@@ -508,6 +508,54 @@ Proof. reflexivity. Qed.
 Lemma step_in_instance st ty : step_arcs st ty (Str "_add_in_instance") = Some (add_in_instance ty).
 Proof. reflexivity. Qed.
 
+(** a disjunction never yields arcs: the regular sequence raises TypeError at [_add_node_type]; the
+    instantiation sequence at [_add_in_instance], unless [_add_path] raised ValueError before *)
+Lemma shacl_arcs_choice tau st : s_choice st = true ->
+  shacl_arcs tau st =
+  if str_eqb (s_prop st) tau
+  then match add_path (s_inv st) (s_prop st), add_cardinality (card_value (s_card st)) with
+       | Some _, Some _ => VTypeError
+       | _, _ => VValueError
+       end
+  else VTypeError.
+Proof.
+  intros Hc. unfold shacl_arcs. rewrite Hc. destruct (str_eqb (s_prop st) tau).
+  - change shacl_instantiation_steps with
+      [Str "_generate_bnode"; Str "_add_bnode_property"; Str "_add_path"; Str "_add_cardinality";
+       Str "_add_in_instance"].
+    change shacl_steps_reading_st_type with [Str "_add_node_type"; Str "_add_in_instance"].
+    change c_choice_st_type_raises with (Str "TypeError").
+    cbn [run_steps_choice].
+    change (mem_str (Str "_generate_bnode") [Str "_add_node_type"; Str "_add_in_instance"]) with false.
+    change (mem_str (Str "_add_bnode_property") [Str "_add_node_type"; Str "_add_in_instance"]) with false.
+    change (mem_str (Str "_add_path") [Str "_add_node_type"; Str "_add_in_instance"]) with false.
+    change (mem_str (Str "_add_cardinality") [Str "_add_node_type"; Str "_add_in_instance"]) with false.
+    change (mem_str (Str "_add_in_instance") [Str "_add_node_type"; Str "_add_in_instance"]) with true.
+    change (str_eqb (Str "TypeError") (Str "TypeError")) with true. cbn iota.
+    rewrite step_generate_bnode, step_bnode_property, step_path, step_cardinality.
+    destruct (add_path (s_inv st) (s_prop st)); [|reflexivity].
+    destruct (add_cardinality (card_value (s_card st))); reflexivity.
+  - change shacl_regular_steps with
+      [Str "_generate_bnode"; Str "_add_bnode_property"; Str "_add_node_type"; Str "_add_cardinality";
+       Str "_add_path"].
+    change shacl_steps_reading_st_type with [Str "_add_node_type"; Str "_add_in_instance"].
+    change c_choice_st_type_raises with (Str "TypeError").
+    cbn [run_steps_choice].
+    change (mem_str (Str "_generate_bnode") [Str "_add_node_type"; Str "_add_in_instance"]) with false.
+    change (mem_str (Str "_add_bnode_property") [Str "_add_node_type"; Str "_add_in_instance"]) with false.
+    change (mem_str (Str "_add_node_type") [Str "_add_node_type"; Str "_add_in_instance"]) with true.
+    change (str_eqb (Str "TypeError") (Str "TypeError")) with true. cbn iota.
+    rewrite step_generate_bnode, step_bnode_property. reflexivity.
+Qed.
+
+Lemma shacl_arcs_choice_not_ok tau st parcs : s_choice st = true -> shacl_arcs tau st <> VOk parcs.
+Proof.
+  intros Hc. rewrite (shacl_arcs_choice tau st Hc).
+  destruct (str_eqb (s_prop st) tau); [|discriminate].
+  destruct (add_path (s_inv st) (s_prop st)); [|discriminate].
+  destruct (add_cardinality (card_value (s_card st))); discriminate.
+Qed.
+
 (** ** the statement-level theorem *)
 Theorem views_agree ns tau st : C11_dom ns tau st = true ->
   exists c arcs, shex_view ns tau st = VOk c /\ shacl_arcs tau st = VOk arcs /\
@@ -597,9 +645,42 @@ Proof.
     rewrite suffixb_close. cbn [andb]. rewrite slice_shape_name. reflexivity.
 Qed.
 
+(** *** the object of [sh:targetClass] *)
+Lemma target_class_obj_old c : c_shacl_target_strips_corners = false -> target_class_obj c = c.
+Proof. unfold target_class_obj. intros ->. reflexivity. Qed.
+
+Lemma target_class_obj_plain c : cornered c = false -> target_class_obj c = c.
+Proof.
+  unfold target_class_obj, remove_corners_lenient. intros ->.
+  destruct c_shacl_target_strips_corners; reflexivity.
+Qed.
+
+Lemma cornered_corners i : cornered (Str "<" ++ i ++ Str ">") = true.
+Proof.
+  unfold cornered. replace (prefixb (Str "<") (Str "<" ++ i ++ Str ">")) with true by reflexivity.
+  change (Str "<" ++ i ++ Str ">") with (("<"%char :: i) ++ [">"%char]).
+  change (Str ">") with [">"%char]. rewrite suffixb_close. reflexivity.
+Qed.
+
+Lemma remove_corners_lenient_corners i : remove_corners_lenient (Str "<" ++ i ++ Str ">") = i.
+Proof. unfold remove_corners_lenient. rewrite cornered_corners. apply slice_corners. Qed.
+
+Lemma target_class_obj_new i : c_shacl_target_strips_corners = true ->
+  target_class_obj (Str "<" ++ i ++ Str ">") = i.
+Proof. unfold target_class_obj. intros ->. apply remove_corners_lenient_corners. Qed.
+
+Lemma target_class_obj_kept i : c_shacl_target_strips_corners = false ->
+  target_class_obj (Str "<" ++ i ++ Str ">") = Str "<" ++ i ++ Str ">".
+Proof. apply target_class_obj_old. Qed.
+
+Lemma retarget_id cs : target_class_obj (cs_class cs) = cs_class cs -> retarget cs = cs.
+Proof. destruct cs as [l c k]. unfold retarget. cbn [cs_label cs_class cs_constraints]. intros ->. reflexivity. Qed.
+
+(** [sh:targetClass] names [target_class_obj] of the shape's class key: the key itself for the text of
+    [_add_target_class] that does not touch it, the key without its enclosing corners for the repaired text *)
 Theorem shapes_agree ns tau sh : C11_dom_shape ns tau sh = true ->
   exists cs d, shex_shape_view ns tau sh = VOk cs /\ shacl_shape tau sh = VOk d /\
-               same_nshape d (enc_shape cs) /\
+               same_nshape d (enc_shape (retarget cs)) /\
                cs_class cs = sh_class sh /\ List.length (cs_constraints cs) = List.length (sh_stmts sh).
 Proof.
   unfold C11_dom_shape. rewrite !andb_true_iff. intros [[Hok Hname] Hst].
@@ -625,14 +706,41 @@ Proof.
       inversion Hc; subst. cbn [List.length]. f_equal. apply IH. reflexivity.
 Qed.
 
+(** the statement as it reads when the class key is the IRI of the class (every class of a class-based
+    extraction: an IRI of the graph or a target class, without corners) or when [_add_target_class] does
+    not touch the key *)
+Theorem shapes_agree_class ns tau sh : C11_dom_shape ns tau sh = true ->
+  target_class_obj (sh_class sh) = sh_class sh ->
+  exists cs d, shex_shape_view ns tau sh = VOk cs /\ shacl_shape tau sh = VOk d /\
+               same_nshape d (enc_shape cs) /\
+               cs_class cs = sh_class sh /\ List.length (cs_constraints cs) = List.length (sh_stmts sh).
+Proof.
+  intros H Hc. destruct (shapes_agree ns tau sh H) as [cs [d [H1 [H2 [H3 [H4 H5]]]]]].
+  exists cs, d. rewrite retarget_id in H3 by (rewrite H4; exact Hc). auto.
+Qed.
+
 Theorem docs_agree ns tau shapes : forallb (C11_dom_shape ns tau) shapes = true ->
+  exists cs d, shex_doc_view ns tau shapes = VOk cs /\ shacl_doc tau shapes = VOk d /\
+               same_doc d (enc_doc (map retarget cs)).
+Proof.
+  intros H. rewrite forallb_forall in H.
+  destruct (vres_all_pair (shex_shape_view ns tau) (shacl_shape tau) (fun b a => same_nshape b (enc_shape (retarget a))) shapes)
+    as [cl [dl [Hc [Hd HR]]]].
+  { intros sh Hin. destruct (shapes_agree ns tau sh (H sh Hin)) as [cs [d [H1 [H2 [H3 _]]]]].
+    exists cs, d. auto. }
+  exists cl, dl. split; [exact Hc|]. split; [exact Hd|].
+  unfold same_doc, enc_doc. clear Hc Hd. induction HR; cbn [map]; constructor; assumption.
+Qed.
+
+Theorem docs_agree_class ns tau shapes : forallb (C11_dom_shape ns tau) shapes = true ->
+  (forall sh, In sh shapes -> target_class_obj (sh_class sh) = sh_class sh) ->
   exists cs d, shex_doc_view ns tau shapes = VOk cs /\ shacl_doc tau shapes = VOk d /\
                same_doc d (enc_doc cs).
 Proof.
-  intros H. rewrite forallb_forall in H.
+  intros H Hcl. rewrite forallb_forall in H.
   destruct (vres_all_pair (shex_shape_view ns tau) (shacl_shape tau) (fun b a => same_nshape b (enc_shape a)) shapes)
     as [cl [dl [Hc [Hd HR]]]].
-  { intros sh Hin. destruct (shapes_agree ns tau sh (H sh Hin)) as [cs [d [H1 [H2 [H3 _]]]]].
+  { intros sh Hin. destruct (shapes_agree_class ns tau sh (H sh Hin) (Hcl sh Hin)) as [cs [d [H1 [H2 [H3 _]]]]].
     exists cs, d. auto. }
   exists cl, dl. split; [exact Hc|]. split; [exact Hd|].
   unfold same_doc, enc_doc. clear Hc Hd. induction HR; cbn [map]; constructor; assumption.
